@@ -152,6 +152,7 @@ EXTRA = {
 # parts added in round 6 of the seeded changes
 EXTRA6 = {
  "C01": "A fifth request spelling carries an `upgrade: true` wish on methods that do not upgrade; long pipelines of 33..400 requests in one handle() call / one socket write; the alphabet has 19 kinds (a method without output parameters whose implementation replies).",
+ "C02": "examples/ping --multiplex is also driven with upgrading calls: the payload in the same write as the request (below and beyond one 8 KiB read) or behind the upgrade reply must come back from the upgraded handler complete (D20, repaired).",
  "C03": "For another case in five a call to one of the registered interfaces travels in front of the case in the same buffer.",
  "C04": "The alphabet includes a method without output parameters whose implementation replies (an empty reply object).",
  "C05": "The end of a client stream is also taken while another thread holds a read guard on the shared connection.",
